@@ -11,7 +11,7 @@ Definition push_res (cap : cap_t) (d : dec) (b : byte) : dec * option res :=
   match o with
   | ONone => (d', None)
   | OMsg => match st d' with
-            | Done => (d', Some (RMsg (rev (rbuf d'))))
+            | Done => (d', Some (RMsg (frev (rbuf d'))))
             | _ => (d', Some RPanic)
             end
   | OErr e => (d', Some (RErr e))
